@@ -4,8 +4,8 @@ from kani import Harness
 F = "scylla/src/routing/partitioner.rs:"
 _LENS = [0, 1, 2, 3, 4, 5, 6, 7, 8, 9, 10, 11, 12, 13, 14, 15, 16, 17, 31, 32, 33]
 _TH = [47, 48, 49, 64, 65]
-_steps = [Harness(f"c03_step_n{n:02d}", f"C03.murmur3.chunking_step.n{n:02d}", "PROVED-C",
-                  f"from ANY hasher state, write of a {n}-byte chunk == {n} one-byte writes (state and token)", timeout=900,
+_steps = [Harness(f"c03_split_len{n:02d}", f"C03.murmur3.two_chunks.len{n:02d}", "PROVED-C",
+                  f"all byte strings of length {n} x every cut position: write(k[..c]); write(k[c..]) gives Cassandra's token of k", solver="cvc5", timeout=900,
                   functions=[F + "Murmur3PartitionerHasher::write", F + "Murmur3PartitionerHasher::finish"]) for n in _LENS]
 _spec = [Harness(f"c03_spec_len{n:02d}", f"C03.murmur3.equals_cassandra.len{n:02d}", "PROVED-C",
                  f"all byte strings of length {n}: real hasher token == Cassandra hash3_x64_128 (signed tail bytes) normalised", solver="cvc5", timeout=900,
@@ -15,7 +15,7 @@ _spec = [Harness(f"c03_spec_len{n:02d}", f"C03.murmur3.equals_cassandra.len{n:02
 PROPERTY = {
     "title": "routing token equals the server-side partitioner's token for the bound key",
     "level": "other",
-    "level_text": "Mixed: (complete per case) Kani/CBMC proves on the real streaming Murmur3 hasher that, from ANY hasher state, writing an n-byte chunk equals writing its bytes one by one for each chunk length n in 0..=17, 31, 32, 33 (the inductive step that makes the token independent of chunking), and that for every byte string of each of those lengths (thorough: also 47-49, 64, 65) the token equals an independent transcription of Cassandra's MurmurHash.hash3_x64_128 with signed tail bytes and the Long.MIN_VALUE normalisation (cvc5 back end); Token::new normalisation and the CDC partitioner (first 8 bytes big-endian, chunk-independent, short keys => minimum token) are complete proofs. Key lengths are enumerated, bytes are fully symbolic.",
+    "level_text": "Mixed: (complete per case) Kani/CBMC proves on the real streaming Murmur3 hasher that for every byte string of each length in 0..=17, 31, 32, 33 and every position at which it can be cut in two, writing the two pieces gives the token of the whole (buffer carry-over at every offset), and that for every byte string of each of those lengths (thorough: also 47-49, 64, 65) the token equals an independent transcription of Cassandra's MurmurHash.hash3_x64_128 with signed tail bytes and the Long.MIN_VALUE normalisation (cvc5 back end); Token::new normalisation and the CDC partitioner (first 8 bytes big-endian, chunk-independent, short keys => minimum token) are complete proofs. Key lengths are enumerated, bytes are fully symbolic.",
     "level_note": "Bounded in the enumerated key/chunk lengths (each length is a complete proof over all byte values). Trusted: Kani/CBMC + cvc5 (single back end answers the hash-equality queries); bytes::Buf::get_i64_le as compiled. Not covered yet: composite-key serialisation order in PartitionKey (prepared.rs) and that the statement's partitioner is the table's.",
     "technique": "contract-style harnesses on the real code with Kani: representation-invariant step + equality with an independent spec function",
     "explanation": "per-length complete proofs (symbolic bytes), lengths enumerated; see samples",
@@ -24,9 +24,13 @@ PROPERTY = {
         Harness("c03_token_new", "C03.token_new.normalise", "PROVED-C", "Token::new maps i64::MIN to i64::MAX, identity otherwise", functions=["scylla/src/routing/mod.rs:Token::new"]),
         Harness("c03_cdc_token", "C03.cdc.token", "PROVED-C", "CDC token = first 8 bytes BE (normalised) for keys up to 10 bytes under every 3-chunking; < 8 bytes => minimum token", functions=[F + "CDCPartitionerHasher::write", F + "CDCPartitionerHasher::finish"]),
         Harness("c03_partitioner_name", "C03.partitioner_name", "PROVED-C", "suffix match selects Murmur3 / CDC / none", functions=[F + "PartitionerName::from_str"]),
-        Harness("c03_pk_layout_single", "C03.partition_key.layout.1", "BOUNDED", "single key column at any of 4 markers: hashed stream = its bytes", bound="4 bind markers, values <= 2 bytes", functions=["scylla/src/statement/prepared.rs:PartitionKey::new", "scylla/src/statement/prepared.rs:PartitionKey::write_encoded_partition_key"]),
-        Harness("c03_pk_layout_two", "C03.partition_key.layout.2", "BOUNDED", "2 key columns at any markers in any key order: be16(len) bytes 0 per component in partition-key order", bound="4 bind markers, values <= 2 bytes", functions=["scylla/src/statement/prepared.rs:PartitionKey::new", "scylla/src/statement/prepared.rs:PartitionKey::write_encoded_partition_key"]),
-        Harness("c03_pk_layout_three", "C03.partition_key.layout.3", "BOUNDED", "3 key columns at any markers in any key order, one non-key marker interleaved", bound="4 bind markers, values <= 2 bytes", tier="thorough", functions=["scylla/src/statement/prepared.rs:PartitionKey::new"]),
+    ] + [Harness(f"c03_pk_{n}", f"C03.partition_key.layout.{n}", "BOUNDED", d, bound="4 bind markers, concrete placement and value lengths (<= 2 bytes), symbolic bytes",
+                 tier=("quick" if n.startswith("single") else "thorough"), timeout=(300 if n.startswith("single") else 3000),
+                 functions=["scylla/src/statement/prepared.rs:PartitionKey::new", "scylla/src/statement/prepared.rs:PartitionKey::write_encoded_partition_key"])
+         for n, d in (("single_first", "single key column at marker 0: hashed stream = its bytes"), ("single_last", "single key column at marker 3"),
+                      ("two_in_order", "2 key columns, markers in key order: be16(len) bytes 0 per component"), ("two_swapped", "2 key columns, bind markers in the opposite order of the key"),
+                      ("three_rotated", "3 key columns, rotated marker order, a non-key marker interleaved"), ("three_reversed", "3 key columns, reversed marker order"),
+                      ("four_reversed", "4 key columns, reversed marker order"))] + [
         Harness("c03_canary_token_is_zero", "C03.canary", "PROVED-C", "a false claim must be refuted", carries=False, canary=True),
     ],
     "verus": [],
